@@ -496,7 +496,12 @@ func runCheck(prop, tier string, writeBaseline, verbose bool, t0 time.Time) int 
 	if kinds := sweepProps[prop]; kinds != nil {
 		var keep []*Obligation
 		for _, o := range cr.obls {
-			if kinds[o.Kind] || hasProp(o.Props, prop) && o.Kind != "nil" && o.Kind != "safety" || o.Kind == "vacuity" {
+			// functions carrying no property at all are verified only in the sweeps: all their obligations count here
+			orphan := false
+			if sp := cr.specs.Funcs[o.Func]; sp != nil && len(sp.Props) == 0 && prop == "C17" {
+				orphan = true
+			}
+			if kinds[o.Kind] || hasProp(o.Props, prop) && o.Kind != "nil" && o.Kind != "safety" || o.Kind == "vacuity" || orphan {
 				keep = append(keep, o)
 			}
 		}
@@ -753,6 +758,10 @@ func writeEvidence(cr *checkRun, prop, tier string, groups []*oblGroup, nClaimed
 		"pointer parameters of non-struct element type do not alias struct fields",
 	)
 	for _, w := range immutableWriters(cr.prog, cr.specs) {
+		if strings.Contains(w, "closes a channel") {
+			assumptions = append(assumptions, w)
+			continue
+		}
 		assumptions = append(assumptions, "write-once discipline not checked (function not under contract): "+w)
 	}
 	var unclaimedNow []string
